@@ -92,14 +92,17 @@ def run(driver, seed, cases, backend="Neon", regbits=128):
                 next(v for v in iter(lambda: rnd.choice(pool), None)
                      if not (nz and v == 0) and not (nonan and not isint and _is_nan(v, w))) for _ in range(L)]
             for method in ("add", "sub", "mul", "div", "max", "min", "fmadd", "sum_to_value", "max_to_value", "min_to_value", "filled"):
-                if method == "fmadd" and not isint:
-                    continue  # fused vs unfused is the intrinsic's semantics, not a property
-                if method == "sum_to_value" and not isint:
-                    continue  # float sums differ by association; covered by the C04 theorem, not by equality
+                # float fmadd: compared with the fused multiply-add of the x86 model (Avx2Fma, validated on this CPU), lane by lane
+                # float sum_to_value: on small integer-valued lanes every association is exact, so the value is the plain sum
                 nonan = method in ("max", "min", "max_to_value", "min_to_value")
                 if method == "filled":
                     v = rnd.choice(pool)
                     plan.append((ty, method, [("v", [v])], None))
+                    continue
+                if method == "sum_to_value" and not isint:
+                    ints = [rnd.randrange(-40, 41) for _ in range(L)]
+                    enc = (lambda v: struct.unpack("<I", struct.pack("<f", float(v)))[0]) if w == 32 else (lambda v: struct.unpack("<Q", struct.pack("<d", float(v)))[0])
+                    plan.append((ty, method, [("r", [enc(v) for v in ints])], ints))
                     continue
                 if method.endswith("_to_value"):
                     plan.append((ty, method, [("r", pick(nonan=nonan))], None))
@@ -113,18 +116,23 @@ def run(driver, seed, cases, backend="Neon", regbits=128):
     # build the request stream: the NEON request, then (floats, arithmetic) the per-lane scalar requests
     lines = ["env 0 0 0 1"]
     index = []
-    for ty, method, args, _ in plan:
+    for ty, method, args, extra in plan:
         isint = ty in INT_TYPES
         w = INT_TYPES[ty][0] if isint else FLOAT_TYPES[ty]
         L = regbits // w
         main = len(lines)
         lines.append("reg %s %s %s %s" % (backend, ty, method, " ".join(_enc(p, ls) for p, ls in args)))
         aux = []
+        if not isint and method == "fmadd":
+            # one request to the 256-bit fused x86 model with the lanes padded by zeros
+            XL = 256 // w
+            aux.append(len(lines))
+            lines.append("reg Avx2Fma %s fmadd %s" % (ty, " ".join(_enc(p, ls + [0] * (XL - L)) for p, ls in args)))
         if not isint and method in ("add", "sub", "mul", "div"):
             for k in range(L):
                 aux.append(len(lines))
                 lines.append("reg Fallback %s %s %s" % (ty, method, " ".join(_enc(p, [ls[k]]) for p, ls in args)))
-        index.append((ty, method, args, main, aux))
+        index.append((ty, method, args, main, aux, extra))
     p = subprocess.run([driver], input="\n".join(lines) + "\n", stdout=subprocess.PIPE, stderr=subprocess.PIPE, text=True, timeout=1800)
     outs = p.stdout.split("\n")
     violations = []
@@ -139,7 +147,7 @@ def run(driver, seed, cases, backend="Neon", regbits=128):
         except ValueError:
             return None
 
-    for ty, method, args, main, aux in index:
+    for ty, method, args, main, aux, extra in index:
         n += 1
         hist["%s/%s" % (ty, method)] = hist.get("%s/%s" % (ty, method), 0) + 1
         isint = ty in INT_TYPES
@@ -152,6 +160,12 @@ def run(driver, seed, cases, backend="Neon", regbits=128):
         byvalue = False
         if method == "filled":
             want = [args[0][1][0]] * L
+        elif method == "sum_to_value" and not isint:
+            byvalue = True
+            want = [float(sum(extra))]
+        elif method == "fmadd" and not isint:
+            r = lanes_of(outs[aux[0]] if aux and aux[0] < len(outs) else "")
+            want = r[:L] if r else [None] * L
         elif method.endswith("_to_value"):
             ls = args[0][1]
             if isint:
